@@ -47,6 +47,8 @@ trait Payload: 'static {
     fn make(tag: u32) -> Self;
     fn tag(&self) -> u32;
     const ZST: bool = false;
+    /// no drop glue (`needs_drop::<T>() == false`): destruction is not observable, only values are
+    const PLAIN: bool = false;
 }
 
 struct Z;
@@ -114,6 +116,36 @@ impl Drop for L {
     fn drop(&mut self) {
         log(Ev::Drop(self.a as u32))
     }
+}
+
+/// pointer-sized, no drop glue
+struct P(usize);
+impl Payload for P {
+    fn make(t: u32) -> Self {
+        P(t as usize ^ 0x3c3c_0000_0000)
+    }
+    fn tag(&self) -> u32 {
+        (self.0 ^ 0x3c3c_0000_0000) as u32
+    }
+    const PLAIN: bool = true;
+}
+
+/// larger than a pointer, no drop glue
+#[repr(C)]
+struct Q {
+    a: usize,
+    b: u8,
+    c: usize,
+}
+impl Payload for Q {
+    fn make(t: u32) -> Self {
+        Q { a: t as usize, b: (t % 251) as u8, c: !(t as usize) }
+    }
+    fn tag(&self) -> u32 {
+        assert!(self.c == !self.a && self.b == (self.a % 251) as u8, "payload corrupted");
+        self.a as u32
+    }
+    const PLAIN: bool = true;
 }
 
 // ---- wakers with identity -------------------------------------------------
@@ -635,7 +667,9 @@ fn run_line<T: Payload>(line: &str, flavour_async: bool) -> String {
     muted(|| drop(held));
     // accounting
     let (mut leak, mut dbl): (Vec<u32>, Vec<u32>) = (vec![], vec![]);
-    if T::ZST {
+    if T::PLAIN {
+        // nothing to account: values without drop glue are never destroyed observably
+    } else if T::ZST {
         let accounted = all_drops.len() + received.len() + kept.len();
         if accounted < created.len() {
             leak.push(0);
@@ -704,6 +738,8 @@ fn main() {
             "z" => run_line::<Z>(&line, fl),
             "b" => run_line::<B>(&line, fl),
             "l" => run_line::<L>(&line, fl),
+            "p" => run_line::<P>(&line, fl),
+            "q" => run_line::<Q>(&line, fl),
             _ => run_line::<W>(&line, fl),
         };
         writeln!(out, "{}", r).unwrap();
